@@ -55,6 +55,12 @@ thread_local! {
     static BOUND_IS_LOCK: std::cell::RefCell<Vec<bool>> = std::cell::RefCell::new(Vec::new());
     static BOUND_NAMES: std::cell::RefCell<Vec<String>> = std::cell::RefCell::new(Vec::new());
     static WRITE_SITES: std::cell::RefCell<Vec<&'static str>> = std::cell::RefCell::new(Vec::new());
+    /// suffix of the boundary names of the current event (abstract client state)
+    static BOUND_CONTEXT: std::cell::RefCell<String> = std::cell::RefCell::new(String::new());
+}
+
+pub fn set_bound_context(ctx: String) {
+    let _ = BOUND_CONTEXT.try_with(|c| *c.borrow_mut() = ctx);
 }
 
 /// C17: park the thread that is about to issue the PAUSE_AT-th write and start the paired
@@ -361,9 +367,10 @@ fn install_write_hook() {
             let b = BOUNDS.fetch_add(1, Ordering::SeqCst) + 1;
             let _ = BOUND_IS_LOCK.try_with(|v| v.borrow_mut().push(matches!(p, crate::verif_hooks::Point::LockIntent(_))));
             let _ = BOUND_NAMES.try_with(|v| {
+                let ctx = BOUND_CONTEXT.try_with(|c| c.borrow().clone()).unwrap_or_default();
                 v.borrow_mut().push(match p {
-                    crate::verif_hooks::Point::LockIntent(n) => format!("lock:{}", n),
-                    crate::verif_hooks::Point::BeforeWrite(n) => format!("write:{}", n),
+                    crate::verif_hooks::Point::LockIntent(n) => format!("lock:{}{}", n, ctx),
+                    crate::verif_hooks::Point::BeforeWrite(n) => format!("write:{}{}", n, ctx),
                     _ => String::new(),
                 })
             });
@@ -856,6 +863,7 @@ pub fn execute_one(plan: &Plan, verbose: bool) -> Outcome {
         BOUNDS.store(0, Ordering::SeqCst);
         BOUND_IS_LOCK.with(|v| v.borrow_mut().clear());
         BOUND_NAMES.with(|v| v.borrow_mut().clear());
+        BOUND_CONTEXT.with(|c| c.borrow_mut().clear());
         WRITE_SITES.with(|w| w.borrow_mut().clear());
         let crash_at = plan
             .flags
